@@ -141,6 +141,9 @@ Expression * ParseExpression::member(Expression * exp)
   catch (ParseError& pe)
   {
     DBG(DBG_DEBUG, "exception %p at %s line %d\n", &pe, __PRETTY_FUNCTION__, __LINE__);
+    /* release the links built so far together with the element they hold:
+     * the chain is owned here, the caller has handed it over */
+    delete exp;
     throw;
   }
   return exp;
@@ -176,14 +179,14 @@ Expression * ParseExpression::element()
       break;
     case TOKEN_LITERALSTR:
       result = new LiteralExpression(Value::parseLiteral(t->text));
-      return member(result);
+      { Expression * e = result; result = nullptr; return member(e); }
     case TOKEN_KEYWORD:
       if (BuiltinExpression::findKeyword(t->text) != BuiltinExpression::unknown)
       {
         /* found a builtin function */
         p.push(t);
         result = BuiltinExpression::parse(p, ctx);
-        return member(result);
+        { Expression * e = result; result = nullptr; return member(e); }
       }
       else
       {
@@ -192,14 +195,14 @@ Expression * ParseExpression::element()
         {
           /* found a CTOR of complex */
           result = ComplexCTORExpression::parse(p, ctx, type_id);
-          return member(result);
+          { Expression * e = result; result = nullptr; return member(e); }
         }
         /* finally it should be a symbol */
         if (p.front()->code == '(')
           result = FunctorExpression::parse(p, ctx, t);
         else
           result = VariableExpression::parse(p, ctx, t);
-        return member(result);
+        { Expression * e = result; result = nullptr; return member(e); }
       }
     case '(':
     {
@@ -209,7 +212,7 @@ Expression * ParseExpression::element()
       if (t->code != ')')
         throw ParseError(EXC_PARSE_MM_PARENTHESIS, t);
       result->enclosed(true);
-      return member(result);
+      { Expression * e = result; result = nullptr; return member(e); }
     }
     default:
       throw ParseError(EXC_PARSE_UNEXPECTED_LEX_S, t->text.c_str(), t);
